@@ -42,12 +42,16 @@ type c14RingCmp struct {
 	prtPkg   *ssa.Package
 	prtNamed *types.Named
 	// API: name ("New", "Ring.Next") -> functions
-	names   []string
-	refFn   map[string]*ssa.Function
-	prtFn   map[string]*ssa.Function
-	perm    []int // port field index -> reference field index
-	refText map[string]string
-	prtText map[string]string
+	names []string
+	refFn map[string]*ssa.Function
+	prtFn map[string]*ssa.Function
+	perm  []int // port leaf index -> reference leaf index
+	// leaves of the two Ring structs (by-value sub-structs flattened); flat:
+	// the port's Ring has no sub-struct, so leaf index == field index
+	prtLeaves, refLeaves []c14RLeaf
+	flat                 bool
+	refText              map[string]string
+	prtText              map[string]string
 }
 
 func c14TypeKey(t types.Type) string {
@@ -318,18 +322,51 @@ func goEnvGOROOTOr() string {
 	return runtimeGOROOT()
 }
 
-// fieldBijections: the mappings of the port's fields onto the reference's
-// fields that respect types and exported names; the name-preserving one first.
-func (rc *c14RingCmp) fieldBijections() [][]int {
-	ps, ok := rc.prtNamed.Underlying().(*types.Struct)
+type c14RLeaf struct {
+	sub      string // index path "i" or "i/j"
+	name     string
+	typ      types.Type
+	exported bool
+	top      bool
+}
+
+// ringLeaves: the non-struct fields of the struct, by-value sub-structs
+// (link fields grouped in a sub-struct) flattened.
+func c14RingLeaves(t types.Type, prefix string, top bool) []c14RLeaf {
+	st, ok := t.Underlying().(*types.Struct)
 	if !ok {
 		return nil
 	}
-	rs := rc.refNamed.Underlying().(*types.Struct)
-	if ps.NumFields() != rs.NumFields() {
+	var out []c14RLeaf
+	for i := 0; i < st.NumFields(); i++ {
+		f := st.Field(i)
+		sub := prefix + fmt.Sprint(i)
+		if _, isStruct := f.Type().Underlying().(*types.Struct); isStruct {
+			out = append(out, c14RingLeaves(f.Type(), sub+"/", false)...)
+			continue
+		}
+		out = append(out, c14RLeaf{sub: sub, name: f.Name(), typ: f.Type(), exported: f.Exported(), top: top})
+	}
+	return out
+}
+
+// fieldBijections: the mappings of the port's fields (leaves) onto the
+// reference's fields that respect types and exported names; the
+// name-preserving one first. perm[i] = index of the reference leaf the i-th
+// port leaf stands for.
+func (rc *c14RingCmp) fieldBijections() [][]int {
+	if _, ok := rc.prtNamed.Underlying().(*types.Struct); !ok {
 		return nil
 	}
-	n := ps.NumFields()
+	pl := c14RingLeaves(rc.prtNamed, "", true)
+	rl := c14RingLeaves(rc.refNamed, "", true)
+	rc.prtLeaves, rc.refLeaves = pl, rl
+	ps := rc.prtNamed.Underlying().(*types.Struct)
+	rc.flat = ps.NumFields() == len(pl)
+	if len(pl) != len(rl) {
+		return nil
+	}
+	n := len(pl)
 	var out [][]int
 	perm := make([]int, n)
 	used := make([]bool, n)
@@ -339,13 +376,16 @@ func (rc *c14RingCmp) fieldBijections() [][]int {
 			out = append(out, append([]int{}, perm...))
 			return
 		}
-		pf := ps.Field(i)
+		pf := pl[i]
 		for j := 0; j < n; j++ {
-			rf := rs.Field(j)
-			if used[j] || c14TypeKey(pf.Type()) != c14TypeKey(rf.Type()) {
+			rf := rl[j]
+			if used[j] || c14TypeKey(pf.typ) != c14TypeKey(rf.typ) {
 				continue
 			}
-			if (pf.Exported() || rf.Exported()) && pf.Name() != rf.Name() {
+			if rf.exported && !(pf.exported && pf.top && pf.name == rf.name) {
+				continue // an exported field of the API stays a direct field of that name
+			}
+			if pf.exported && pf.top && !rf.exported {
 				continue
 			}
 			used[j] = true
@@ -358,7 +398,7 @@ func (rc *c14RingCmp) fieldBijections() [][]int {
 	score := func(pm []int) int {
 		s := 0
 		for i, j := range pm {
-			if ps.Field(i).Name() == rs.Field(j).Name() {
+			if pl[i].name == rl[j].name {
 				s++
 			}
 		}
@@ -366,6 +406,21 @@ func (rc *c14RingCmp) fieldBijections() [][]int {
 	}
 	sort.SliceStable(out, func(a, b int) bool { return score(out[a]) > score(out[b]) })
 	return out
+}
+
+// canonLeaf maps the raw path of a field of the port's Ring to the key of
+// the reference field it stands for under the current bijection.
+func (rc *c14RingCmp) canonLeaf(port bool, raw string) string {
+	if !port || rc.perm == nil || !strings.HasPrefix(raw, "Ring.") {
+		return raw
+	}
+	sub := strings.TrimPrefix(raw, "Ring.")
+	for i, l := range rc.prtLeaves {
+		if l.sub == sub && i < len(rc.perm) {
+			return "Ring." + rc.refLeaves[rc.perm[i]].sub
+		}
+	}
+	return raw
 }
 
 // refFieldRole: index of the reference field with the given name.
@@ -385,7 +440,7 @@ func (rc *c14RingCmp) canonField(port bool, t types.Type, idx int) (int, bool) {
 	if !ok {
 		return idx, false
 	}
-	if port && n.Origin() == rc.prtNamed.Origin() && rc.perm != nil {
+	if port && n.Origin() == rc.prtNamed.Origin() && rc.perm != nil && rc.flat {
 		return rc.perm[idx], true
 	}
 	if n.Origin() == rc.refNamed.Origin() {
@@ -410,7 +465,7 @@ func (rc *c14RingCmp) astIdentical(name string) bool {
 	// under the name-preserving field bijection
 	ps, _ := rc.prtNamed.Underlying().(*types.Struct)
 	rs, _ := rc.refNamed.Underlying().(*types.Struct)
-	if ps == nil || rs == nil || rc.perm == nil {
+	if ps == nil || rs == nil || rc.perm == nil || !rc.flat {
 		return false
 	}
 	for i, j := range rc.perm {
@@ -517,7 +572,7 @@ func (rc *c14RingCmp) smallEdit1(name string) string {
 	}
 	ps, _ := rc.prtNamed.Underlying().(*types.Struct)
 	rs, _ := rc.refNamed.Underlying().(*types.Struct)
-	if ps != nil && rs != nil && rc.perm != nil {
+	if ps != nil && rs != nil && rc.perm != nil && rc.flat {
 		// two passes so that a swap of names does not collide
 		for i, j := range rc.perm {
 			if i < ps.NumFields() && j < rs.NumFields() && !ps.Field(i).Exported() {
@@ -631,7 +686,8 @@ func (rc *c14RingCmp) prove(pf, rf *ssa.Function, opaqueAPI bool) *symMismatch {
 	mk := func(name string, fn *ssa.Function, port bool) *symSide {
 		s := &symSide{name: name, x: x, mem: map[string]*symTerm{}, derefs: map[int]*symTerm{}}
 		s.typeKey = c14TypeKey
-		s.fieldKey = func(t types.Type, idx int) string {
+		s.leafKey = func(raw string) string { return rc.canonLeaf(port, raw) }
+		_ = func(t types.Type, idx int) string {
 			ci, _ := rc.canonField(port, t, idx)
 			return fmt.Sprintf("%s.%d", c14TypeKey(deref(t)), ci)
 		}
@@ -676,6 +732,9 @@ func (rc *c14RingCmp) prove(pf, rf *ssa.Function, opaqueAPI bool) *symMismatch {
 // refute searches the bounded input space for an input on which the port and
 // the reference behave differently.
 func (rc *c14RingCmp) refute(pf, rf *ssa.Function) (witness, note string) {
+	if !rc.flat {
+		return "", "(no illustration: the evaluator does not model grouped link fields)"
+	}
 	defer func() {
 		if e := recover(); e != nil {
 			if _, isU := e.(*UndecidedError); isU {
